@@ -27,6 +27,26 @@ def dissect_failsafe(f):
             return None
     return _fail_wrapper
 
+def convert_failsafe(f):
+    """Failsafe decorator for the `from_packet()` methods of WHAD's Hub message
+    classes that implement the AbstractPacket class.
+
+    A packet that lacks a piece of information the message needs (metadata
+    item set to None, missing metadata attribute, no metadata at all) or that
+    holds a value the message field cannot take (out of range) cannot be
+    represented by this message: return None, as `to_packet()` does for a
+    message it cannot convert.
+    """
+    def _fail_wrapper(*args, **kwargs):
+        try:
+            return f(*args, **kwargs)
+        except (struct.error, TypeError, AttributeError, ValueError):
+            logger = logging.getLogger(f.__qualname__)
+            logger.debug("Conversion error while converting packet %s to message !",
+                         repr(args[0]) if args else None)
+            return None
+    return _fail_wrapper
+
 class AbstractPacketMeta(type):
     """Hub packet metaclass"""
     def __instancecheck__(cls, instance):
